@@ -59,9 +59,12 @@ def _check_vec(cases):
 
 
 def _check_cli(cases):
+    import json as _json
     n = 0
     divs = []
+    traces = []
     wd = par.workdir()
+    hook = os.path.join(wd, "cli_hook.ndjson")
     paths = {"FILE1": os.path.join(wd, "FILE1"), "FILE2": os.path.join(wd, "FILE2"), "CLIM": os.path.join(wd, "CLIM"),
              "CFG": os.path.join(wd, "CFG"), "MISSINGFILE": os.path.join(wd, "does-not-exist")}
     written = None
@@ -79,7 +82,17 @@ def _check_cli(cases):
             argv = [paths.get(t, t) for t in v["argv"]]
             shown = " ".join(v["argv"]) + ((" [CFG: %s]" % " ".join(v["config"])) if v["config"] else "")
             rep = {"kind": "cli", "argv": v["argv"], "config": v["config"], "expected": exp, "files": c["files"], "clim": c["clim"]}
-            status, text = run_verif(argv)
+            open(hook, "w").close()
+            os.environ["VERIF_TLA_TRACE"] = hook
+            try:
+                status, text = run_verif(argv)
+            finally:
+                os.environ.pop("VERIF_TLA_TRACE", None)
+            with open(hook) as hf:
+                events = [_json.loads(x) for x in hf if x.strip()]
+            traces.append({"argv": argv, "cfgname": paths["CFG"], "config": [paths.get(t, t) for t in v["config"]],
+                           "events": [{k: ("(unset)" if val is None else val) for k, val in e.items()}
+                                      for e in events if e["ev"] in ("CliSpliced", "Token", "Parsed", "ErrorExit")]} if events else {"nohooks": True})
             n += 1
             if status.startswith("exception"):
                 site = status.split(" ")[0]
@@ -112,7 +125,7 @@ def _check_cli(cases):
             b = [x for x in outputs if x[1] != a[1]][0]
             divs.append(("cli:order-dependent", "different output for two orders/splits of the same options:\n  %s\n  %s" % (a[0], b[0]),
                          {"kind": "cli", "a": a, "b": b, "files": c["files"], "clim": c["clim"]}))
-    return n, divs
+    return n, divs, traces
 
 
 def _isnum(x):
@@ -121,6 +134,34 @@ def _isnum(x):
         return v == v
     except ValueError:
         return False
+
+
+def _validate_loop_traces(ctx, recorded):
+    """code -> spec: the recorded argument-loop events of every run are checked by TLC against Cli.tla (Trace_Cli); white box only"""
+    import json as _json
+    from harness import core
+    traces = [t for t in recorded if not t.get("nohooks")]
+    if len(traces) < len(recorded):
+        ctx.note_drift("driver hooks absent or silent in %d of %d runs; loop trace validation skipped for them" % (len(recorded) - len(traces), len(recorded)))
+    if not traces:
+        return
+    for k, t in enumerate(traces):
+        t["id"] = k + 1
+    os.makedirs(os.path.join(core.BUILD, "traces"), exist_ok=True)
+    path = os.path.join(core.BUILD, "traces", "C13_cli.json")
+    with open(path, "w") as f:
+        _json.dump({"traces": traces}, f)
+    res = tlc.run("Trace_Cli", "Trace_Cli", tag=ctx.pid + "_trace", workers=8, timeout_s=1200, env={"TRACE_FILE": path}, require_emit=False)
+    ctx.add_tlc("Trace_Cli (%d recorded argument-loop traces)" % len(traces), res)
+    ok = set(o["accept"] for o in res.emitted if "accept" in o)
+    ctx.extra["loop_traces_accepted_by_tlc"] = len(ok)
+    ctx.extra["loop_traces_recorded"] = len(traces)
+    for t in [t for t in traces if t["id"] not in ok][:3]:
+        ctx.note_drift("the argument loop of this run is not a behaviour of Cli.tla: argv=%r config=%r events=%r"
+                       % ([os.path.basename(a) for a in t["argv"]], [os.path.basename(a) for a in t["config"]], [(e["ev"], e.get("pos"), os.path.basename(str(e.get("token")))) for e in t["events"]][:12]))
+    rest = len(traces) - len(ok) - 3
+    if rest > 0:
+        ctx.drift["(further loop traces with drift)"] = rest
 
 
 def run(ctx):
@@ -149,10 +190,13 @@ def run(ctx):
         bad = [c for c in cli if c["expected"]["status"] != "ok"]
         ok = [c for c in cli if c["expected"]["status"] == "ok"]
         cli = rng.sample(bad, min(len(bad), 110)) + rng.sample(ok, min(len(ok), 150))
-    for n, divs in par.pmap(_check_cli, [cli[i:i + 6] for i in range(0, len(cli), 6)], chunk=1):
+    recorded = []
+    for n, divs, traces in par.pmap(_check_cli, [cli[i:i + 6] for i in range(0, len(cli), 6)], chunk=1):
         ctx.evaluations += n
+        recorded += traces
         for site, detail, rep in divs:
             ctx.diverge(site, rep, detail=detail)
+    _validate_loop_traces(ctx, recorded)
     for c in cli:
         ctx.traces += len(c["variants"])
         if len(c["groups"]) >= 2 or c["expected"]["status"] != "ok":
